@@ -236,6 +236,11 @@ def check_kem_wrappers(rep, facts, spec, rule='R03.2'):
         if len(cs) == 1:
             src = a.deref_val(a.arg_val(cs[0][0], 1), a.term_point(cs[0][0]))
             ok = a.arg_val(cs[0][0], 0) == ('param', 2) and src[0] == 'call' and src[1] == 'Serializable::to_bytes' and pp(src[2][0]) == '&*p1.0'
+        if not cs:
+            # the wrapped public key serialises itself straight into the caller's buffer
+            ds = a.calls(lambda c: c['name'] == 'write_exact' and c.get('trait') == 'Serializable')
+            ok = len(ds) == 1 and pp(a.arg_val(ds[0][0], 0)) == '&*p1.0' and a.arg_val(ds[0][0], 1) == ('param', 2) and \
+                all(a.cfg.dominates(ds[0][0], r) for r in a.cfg.returns)
         rep.check(ok, rule, a.body.key, 'enc-serialisation', [pp(a.arg_val(bi, 1)) for bi, _, _ in cs],
                   'enc = SerializePublicKey(pkE): EncappedKey writes its public key\'s bytes', where(a))
     return dhx
